@@ -30,7 +30,7 @@ CHUNK = 24
 
 
 def bounds(tier):
-    return {"tree nodes": "1 over 11 leaves (all axes), 2 over 5 leaves (all axes)" if tier == "quick"
+    return {"n-ary": "3- and 4-operand Add/Compose/Hstack/Vstack/Diag over 5 leaves (quick) / 3-operand over 11 leaves (thorough)", "tree nodes": "1 over 11 leaves (all axes), 2 over 5 leaves (all axes)" if tier == "quick"
             else "<= 2 over 11 leaves (all axes), 3 over 3 leaves",
             "ill-typed": "every ordered leaf pair x {Compose, Add, Sub, Hstack/Vstack axis in [-nd-1, nd], None, Diag iaxis/oaxis in {None,0,1,-1}} rejected by the reference shape calculus"}
 
@@ -38,6 +38,8 @@ def bounds(tier):
 def gen_cases(tier, seed):
     cases = []
     for t in programs.trees(programs.LEAVES, 1):
+        cases.append(dict(kind="tree", spec=t))
+    for t in programs.nary_trees(programs.SUB5 if tier == "quick" else programs.LEAVES, (3, 4) if tier == "quick" else (3,)):
         cases.append(dict(kind="tree", spec=t))
     if tier == "quick":
         for t in programs.trees(programs.SUB5, 2, all_axes=True, scalars=programs.SCALARS[:2]):
